@@ -45,7 +45,7 @@ fn judge(rep: &mut Report, label: &str, text: &str, expected: &BTreeSet<&'static
 struct M { tag: Option<u32>, opt: bool, dup_name: bool }
 
 pub fn run() -> i32 {
-    let mut rep = Report::new("rules", "F1: every tag / optional / repeated-name assignment over <= 3 members in 6 containers; F2: every stream placement over <= 3 members; F3: enumerator values at the bounds of every underlying type, enum modifiers, tag bounds; F4: dictionary key types to depth 2 -- verdict and codes vs an independent reference checker");
+    let mut rep = Report::new("rules", "F1: every tag / optional / repeated-name assignment over <= 3 members in 6 containers; F2: every stream placement over <= 3 members; F3: enumerator values at the bounds of every underlying type, enum modifiers, tag bounds; F4: dictionary key types to depth 2; F5: every redeclaration of inherited operations over <= 3 operations, one and two levels -- verdict and codes vs an independent reference checker");
     // ---- F1 ---------------------------------------------------------------------------------------------------
     let shapes: Vec<M> = { let mut v = vec![]; for tag in [None, Some(1), Some(2)] { for opt in [false, true] { for dup_name in [false, true] { v.push(M { tag, opt, dup_name }); } } } v };
     let containers = ["struct", "compact struct", "enumerator", "compact enumerator", "parameters", "return tuple"];
@@ -128,6 +128,20 @@ pub fn run() -> i32 {
     }
     judge(&mut rep, "F3 alias of an optional type", "module M\ntypealias A = bool?\n", &["E034"].into());
     judge(&mut rep, "F3 definition before the module declaration", "struct S {}\nmodule M\n", &["E002"].into());
+    // ---- F5: no redeclaration of an inherited operation -------------------------------------------------------------
+    // base I { first() second() third() }; J : I declares every subset / order of {first, second, third, own} (<= 3 ops);
+    // K : J (two levels) redeclares one of them
+    let pool = ["first", "second", "third", "own"];
+    let mut lists: Vec<Vec<&str>> = vec![vec![]];
+    for a in pool { lists.push(vec![a]); for b in pool { if b != a { lists.push(vec![a, b]); for c in pool { if c != a && c != b { lists.push(vec![a, b, c]); } } } } }
+    for ops in &lists {
+        let body = ops.iter().map(|o| format!("{o}()")).collect::<Vec<_>>().join(" ");
+        let redeclared = ops.iter().any(|o| *o != "own");
+        let exp: BTreeSet<&'static str> = if redeclared { ["E011"].into() } else { BTreeSet::new() };
+        judge(&mut rep, &format!("F5 J : I {{ {body} }}"), &format!("module M\ninterface I {{ first() second() third() }}\ninterface J : I {{ {body} }}\n"), &exp);
+        judge(&mut rep, &format!("F5 K : J : I {{ {body} }} (two levels)"), &format!("module M\ninterface I {{ first() second() third() }}\ninterface J : I {{ mid() }}\ninterface K : J {{ {body} }}\n"), &exp);
+    }
+    judge(&mut rep, "F5 diamond: the same inherited operation through two bases is not a redeclaration", "module M\ninterface I { first() }\ninterface A : I {}\ninterface B : I {}\ninterface D : A, B { own() }\n", &BTreeSet::new());
     // ---- F4 ---------------------------------------------------------------------------------------------------
     let prelude = "module M\nenum En { A, B }\nunchecked enum Un : uint8 { A }\ncustom Cu\nstruct Plain { a: bool }\ncompact struct CGood { a: bool, b: string }\ncompact struct CFloat { a: float32 }\ncompact struct COpt { a: bool? }\ncompact struct CNested { a: CGood, b: int32 }\ncompact struct CNestedBad { a: CFloat }\ncompact struct CSeq { a: Sequence<bool> }\ncompact struct CPlainInside { a: Plain }\ninterface I {}\n";
     let keys: [(&str, &[&str]); 28] = [
